@@ -288,7 +288,7 @@ def pseudo_random_unit(*items):
     return (int.from_bytes(h[:8], "big") + 1) / 2.0 ** 64
 
 
-def make_stub_calculator(salt=0, nE=3, rank=0):
+def make_stub_calculator(salt=0, nE=3, rank=0, level_boost=1.0):
     """a calculator that evaluates no physics: its result (and hence the refinement criterion) is a
     pseudo-random function of the K-point coordinates, so the refinement history is adversarial but
     reproducible"""
@@ -309,6 +309,8 @@ def make_stub_calculator(salt=0, nE=3, rank=0):
             if hasattr(K, "vertices"):
                 key = key + tuple(np.round(np.asarray(K.vertices), 7).reshape(-1).tolist())
             vals = np.array([pseudo_random_unit(salt, key, i) for i in range(nE)])
+            if level_boost != 1.0:  # deeper cells look more important: the adversary keeps refining the same region
+                vals = (0.5 + vals) * level_boost ** max(0, int(getattr(K, 'refinement_level', 0)))
             data = vals.reshape((nE,) + (1,) * rank) * np.ones((nE,) + (3,) * rank)
             return EnergyResult(self.Efermi, data, transformTR=transform_ident, transformInv=transform_ident, rank=rank,
                                 save_mode="none")
